@@ -68,7 +68,9 @@ def run(R, ctx):
             per[(root, n)] = ordn + 1
             key = f"{root}|{n}|discard#{ordn}"
             allowed = next((why for (fr, cr, why) in ALLOWED_DISCARDS if re.search(cr, n) and
-                            (re.search(fr, root) or any(re.search(fr, o) for o in owners.get(b.path, ())))), None)
+                            (re.search(fr, root) or any(re.search(fr, o) for o in owners.get(b.path, ())) or
+                             # a private helper called from nowhere but the allow-listed function(s) is part of them
+                             (not f.bodies[root].reachable and only_called_from(cg, root, {q for q in f.bodies if re.search(fr, q)})))), None)
             if allowed:
                 R.ok('R19.1', key, f"allowed discard: {allowed}", nontrivial=True)
             else:
